@@ -218,13 +218,42 @@ var hookH = hx.HookSpec{Name: "h", Kind: "ConfigMap", Events: []string{"pre-inst
 
 // chartC: the slots selected by mask (bit i = slots[i]) at a variant, optionally the base ConfigMap b0, optionally the hook.
 func chartC(mask, variant, base int, hook bool, version string) *hx.ChartSpec {
+	return chartOwn(mask, variant, base, hook, version, 0)
+}
+
+// ownMetaYAML renders a slot document that hard-codes ownership metadata of its own (manifests exported from a
+// cluster managed by another tool): own=1 a foreign managed-by label, own=2 also foreign release annotations.
+func ownMetaYAML(r hx.ResSpec, own int) string {
+	y := hx.ResourceYAML(r)
+	marker := "metadata:\n  name: " + r.Name + "\n"
+	ins := "  labels:\n    " + lblManagedBy + ": kustomize\n    team: x\n"
+	if own >= 2 {
+		ins += "  annotations:\n    " + annName + ": other\n    " + annNS + ": other-ns\n"
+	}
+	if !strings.Contains(y, marker) {
+		panic("ownMetaYAML: marker not found in " + y)
+	}
+	return strings.Replace(y, marker, marker+ins, 1)
+}
+
+// chartOwn is chartC whose slot documents carry chart-supplied ownership metadata when own > 0 (raw templates).
+func chartOwn(mask, variant, base int, hook bool, version string, own int) *hx.ChartSpec {
 	cs := &hx.ChartSpec{Name: "c", Version: version}
+	if own > 0 && mask != 0 {
+		cs.Version = fmt.Sprintf("%s-own%d", version, own)
+		cs.Extra = map[string]string{}
+	}
 	if base > 0 {
 		cs.Resources = append(cs.Resources, hx.ResSpec{Kind: "ConfigMap", Name: "b0", Variant: base})
 	}
 	for i, s := range slots {
 		if mask&(1<<i) != 0 {
-			cs.Resources = append(cs.Resources, hx.ResSpec{Kind: s.Kind, Name: s.Name, Variant: variant})
+			r := hx.ResSpec{Kind: s.Kind, Name: s.Name, Variant: variant}
+			if own > 0 {
+				cs.Extra[fmt.Sprintf("templates/own-%s-%s.yaml", strings.ToLower(s.Kind), s.Name)] = ownMetaYAML(r, own)
+				continue
+			}
+			cs.Resources = append(cs.Resources, r)
 		}
 	}
 	if hook {
@@ -270,6 +299,10 @@ type ctxDef struct {
 	Ledger int // revisions of r (or of the other release) before the operation under test
 	Prefix func(mask int) []opspace.Step
 	Under  func(mask int) hx.Op
+	// Own > 0: the slot documents carry chart-supplied ownership metadata (see ownMetaYAML).
+	Own int
+	// CreateNS: "" | "absent" | "exists" - install --create-namespace with the release namespace object absent / present.
+	CreateNS string
 	// SlotsAbsentAfterPrefix: the prefix ends with a failed attempt that must not have created any chart slot.
 	SlotsAbsentAfterPrefix bool
 }
@@ -286,8 +319,49 @@ func firstApplied(mask int) slot {
 
 func opStep(o hx.Op) opspace.Step { return opspace.Step{Op: o} }
 
-func contexts(thorough bool) []ctxDef {
+type ctxOpt struct {
+	Own      int
+	CreateNS string
+}
+
+const nsObjPath = "/api/v1/namespaces/" + hx.Namespace
+
+func contexts(thorough bool) []ctxDef { return contextsWith(thorough, ctxOpt{}) }
+
+func contextsWith(thorough bool, opt ctxOpt) []ctxDef {
+	all := contextsRaw(thorough, opt)
+	if opt == (ctxOpt{}) {
+		return all
+	}
 	var out []ctxDef
+	for _, cx := range all {
+		if opt.CreateNS != "" && cx.Kind != "install" && cx.Kind != "replace" {
+			continue
+		}
+		cx.Own, cx.CreateNS = opt.Own, opt.CreateNS
+		if opt.Own > 0 {
+			cx.Name += fmt.Sprintf("/chart-own-metadata-%d", opt.Own)
+		}
+		if opt.CreateNS != "" {
+			cx.Name += "/create-namespace(ns-" + opt.CreateNS + ")"
+		}
+		if opt.CreateNS == "exists" {
+			inner := cx.Prefix
+			cx.Prefix = func(mask int) []opspace.Step {
+				obj, _ := json.Marshal(map[string]any{"apiVersion": "v1", "kind": "Namespace", "metadata": map[string]any{"name": hx.Namespace}})
+				return append([]opspace.Step{{Env: &opspace.EnvStep{Kind: "put", Path: nsObjPath, Obj: obj}}}, inner(mask)...)
+			}
+		}
+		out = append(out, cx)
+	}
+	return out
+}
+
+func contextsRaw(thorough bool, opt ctxOpt) []ctxDef {
+	var out []ctxDef
+	chartC := func(mask, variant, base int, hook bool, version string) *hx.ChartSpec {
+		return chartOwn(mask, variant, base, hook, version, opt.Own)
+	}
 	base := func(v int) *hx.ChartSpec { return chartC(0, 1, v, false, fmt.Sprintf("0.%d", v)) }
 	installBase := opStep(hx.Op{Kind: "install", Chart: base(1)})
 	upgradeBase2 := opStep(hx.Op{Kind: "upgrade", Chart: base(2)})
@@ -309,7 +383,7 @@ func contexts(thorough bool) []ctxDef {
 			}
 			install := func(replace bool) func(int) hx.Op {
 				return func(mask int) hx.Op {
-					return hx.Op{Kind: "install", Chart: chartC(mask, 1, 0, hook, "1"), Replace: replace, TakeOwnership: to}
+					return hx.Op{Kind: "install", Chart: chartC(mask, 1, 0, hook, "1"), Replace: replace, TakeOwnership: to, CreateNamespace: opt.CreateNS != ""}
 				}
 			}
 			upgrade := func(b int) func(int) hx.Op {
@@ -476,6 +550,11 @@ func chartDocs(cs *hx.ChartSpec) map[string]hx.Doc {
 	out := map[string]hx.Doc{}
 	for _, r := range cs.Resources {
 		for p, d := range manifestDocs(hx.ResourceYAML(r)) {
+			out[p] = d
+		}
+	}
+	for _, n := range sortedKeys(cs.Extra) {
+		for p, d := range manifestDocs(cs.Extra[n]) {
 			out[p] = d
 		}
 	}
@@ -1089,7 +1168,7 @@ func (x *explorer) scenario(drv string, cx ctxDef, mask int, pl placement) {
 	succeeded := cx.Kind != "rollback" && !t.Res.Failed
 	if succeeded {
 		fus = append(fus,
-			hx.Op{Kind: "upgrade", Chart: chartC(mask, 2, baseOf(under.Chart), cx.Hook, "2")},
+			hx.Op{Kind: "upgrade", Chart: chartOwn(mask, 2, baseOf(under.Chart), cx.Hook, "2", cx.Own)},
 			hx.Op{Kind: "upgrade", Chart: chartC(0, 1, 1, false, "0.1")})
 	}
 	if c.Thorough() {
